@@ -7859,10 +7859,10 @@ let identify_bracket_pairs_gen e ds legacy text sq oc pc =
     Ok (sort_pairs pairs))
 
 (** val n0_scan :
-    bclass list -> bclass -> bclass -> nat -> nat list -> bool -> bool ->
-    (bool * bool) res **)
+    bool -> bclass list -> bclass list -> bclass -> bclass -> nat -> nat list
+    -> bool -> bool -> (bool * bool) res **)
 
-let rec n0_scan pc ecls not_e pair_end idxs found_e found_not_e =
+let rec n0_scan legacy oc pc ecls not_e pair_end idxs found_e found_not_e =
   match idxs with
   | [] -> Ok (found_e, found_not_e)
   | i :: rest ->
@@ -7884,35 +7884,61 @@ let rec n0_scan pc ecls not_e pair_end idxs found_e found_not_e =
              (S (S (S (S (S (S (S (S (S (S (S (S (S (S (S (S (S (S (S (S (S
              (S (S (S (S (S (S (S (S (S (S (S (S (S (S (S (S (S (S (S (S (S
              (S (S (S (S (S (S (S (S (S (S (S (S (S (S (S (S (S (S (S (S (S
-             (S (S (S (S (S (S (S (S (S (S (S
-             O)))))))))))))))))))))))))))))))))))))))))))))))))))))))))))))))))))))))))))))))))))))))))))))))))))))))))))))))))))))))))))))))))))))))))))))))))))))))))))))))))))))))))))))))))))))))))))))))))))))))))))))))))))))))))))))))))))))))))))))))))))))))))))))))))))))))))))))))))))))))))))))))))))))))))))))))))))))))))))))))))))))
-             pc i) (fun c ->
-           if ceq c ecls
-           then let fe = true in
-                if fe
-                then Ok (fe, found_not_e)
-                else n0_scan pc ecls not_e pair_end rest fe found_not_e
-           else if ceq c not_e
-                then let fn = true in
-                     if found_e
-                     then Ok (found_e, fn)
-                     else n0_scan pc ecls not_e pair_end rest found_e fn
-                else if (||) (ceq c EN) (ceq c AN)
-                     then if ceq ecls L
-                          then let fn = true in
-                               if found_e
-                               then Ok (found_e, fn)
-                               else n0_scan pc ecls not_e pair_end rest
-                                      found_e fn
-                          else let fe = true in
-                               if fe
-                               then Ok (fe, found_not_e)
-                               else n0_scan pc ecls not_e pair_end rest fe
-                                      found_not_e
-                     else if found_e
-                          then Ok (found_e, found_not_e)
-                          else n0_scan pc ecls not_e pair_end rest found_e
-                                 found_not_e)
+             (S (S (S (S (S (S (S (S (S (S (S (S
+             O))))))))))))))))))))))))))))))))))))))))))))))))))))))))))))))))))))))))))))))))))))))))))))))))))))))))))))))))))))))))))))))))))))))))))))))))))))))))))))))))))))))))))))))))))))))))))))))))))))))))))))))))))))))))))))))))))))))))))))))))))))))))))))))))))))))))))))))))))))))))))))))))))))))))))))))))))))))))))))))))))))))
+             oc i) (fun o ->
+           if (&&) (removed_by_x9 o) (negb legacy)
+           then n0_scan legacy oc pc ecls not_e pair_end rest found_e
+                  found_not_e
+           else bind
+                  (get (S (S (S (S (S (S (S (S (S (S (S (S (S (S (S (S (S (S
+                    (S (S (S (S (S (S (S (S (S (S (S (S (S (S (S (S (S (S (S
+                    (S (S (S (S (S (S (S (S (S (S (S (S (S (S (S (S (S (S (S
+                    (S (S (S (S (S (S (S (S (S (S (S (S (S (S (S (S (S (S (S
+                    (S (S (S (S (S (S (S (S (S (S (S (S (S (S (S (S (S (S (S
+                    (S (S (S (S (S (S (S (S (S (S (S (S (S (S (S (S (S (S (S
+                    (S (S (S (S (S (S (S (S (S (S (S (S (S (S (S (S (S (S (S
+                    (S (S (S (S (S (S (S (S (S (S (S (S (S (S (S (S (S (S (S
+                    (S (S (S (S (S (S (S (S (S (S (S (S (S (S (S (S (S (S (S
+                    (S (S (S (S (S (S (S (S (S (S (S (S (S (S (S (S (S (S (S
+                    (S (S (S (S (S (S (S (S (S (S (S (S (S (S (S (S (S (S (S
+                    (S (S (S (S (S (S (S (S (S (S (S (S (S (S (S (S (S (S (S
+                    (S (S (S (S (S (S (S (S (S (S (S (S (S (S (S (S (S (S (S
+                    (S (S (S (S (S (S (S (S (S (S (S (S (S (S (S (S (S (S (S
+                    (S (S (S (S (S (S (S (S (S (S (S (S (S (S (S (S (S (S (S
+                    (S (S (S (S (S (S (S (S (S (S (S (S (S (S (S (S (S (S (S
+                    (S (S (S (S (S (S (S (S (S (S (S (S (S (S (S (S (S (S (S
+                    (S (S (S
+                    O)))))))))))))))))))))))))))))))))))))))))))))))))))))))))))))))))))))))))))))))))))))))))))))))))))))))))))))))))))))))))))))))))))))))))))))))))))))))))))))))))))))))))))))))))))))))))))))))))))))))))))))))))))))))))))))))))))))))))))))))))))))))))))))))))))))))))))))))))))))))))))))))))))))))))))))))))))))))))))))))))))))
+                    pc i) (fun c ->
+                  if ceq c ecls
+                  then let fe = true in
+                       if fe
+                       then Ok (fe, found_not_e)
+                       else n0_scan legacy oc pc ecls not_e pair_end rest fe
+                              found_not_e
+                  else if ceq c not_e
+                       then let fn = true in
+                            if found_e
+                            then Ok (found_e, fn)
+                            else n0_scan legacy oc pc ecls not_e pair_end
+                                   rest found_e fn
+                       else if (||) (ceq c EN) (ceq c AN)
+                            then if ceq ecls L
+                                 then let fn = true in
+                                      if found_e
+                                      then Ok (found_e, fn)
+                                      else n0_scan legacy oc pc ecls not_e
+                                             pair_end rest found_e fn
+                                 else let fe = true in
+                                      if fe
+                                      then Ok (fe, found_not_e)
+                                      else n0_scan legacy oc pc ecls not_e
+                                             pair_end rest fe found_not_e
+                            else if found_e
+                                 then Ok (found_e, found_not_e)
+                                 else n0_scan legacy oc pc ecls not_e
+                                        pair_end rest found_e found_not_e))
 
 (** val n0_nsm :
     bool -> bclass list -> bclass list -> nat list -> bclass -> bclass list
@@ -8043,7 +8069,8 @@ let n0_pair e legacy backwards text sq oc ecls not_e pc pair =
       bind
         (iter_forwards_from runs (add pair.bp_start start_char_len)
           pair.bp_start_run) (fun fw ->
-        bind (n0_scan pc ecls not_e pair.bp_end fw false false) (fun x ->
+        bind (n0_scan legacy oc pc ecls not_e pair.bp_end fw false false)
+          (fun x ->
           let (found_e, found_not_e) = x in
           bind
             (if found_e
@@ -14323,12 +14350,14 @@ let nat_ll_eqb =
     bool **)
 
 let runs_bd7 cls0 xlev oc lv runs =
-  (&&) (nat_ll_eqb (runs_live oc runs) (level_runs xlev (remaining cls0)))
-    (forallb (fun r ->
-      forallb (fun i ->
-        match nth i xlev None with
-        | Some l -> Nat.eqb l (nth (fst r) lv O)
-        | None -> false) (filter (live oc) (run_range r))) runs)
+  (&&)
+    ((&&) (nat_ll_eqb (runs_live oc runs) (level_runs xlev (remaining cls0)))
+      (forallb (fun r ->
+        forallb (fun i ->
+          match nth i xlev None with
+          | Some l -> Nat.eqb l (nth (fst r) lv O)
+          | None -> false) (filter (live oc) (run_range r))) runs))
+    (forallb (fun r -> live oc (fst r)) (tl runs))
 
 type seq3 = (nat list * bclass) * bclass
 
@@ -14385,26 +14414,40 @@ let rec stage_check_seqs ds cps oc lv pc = function
 | sq :: rest ->
   if negb (bn_exact oc pc sq)
   then Inl (S (S (S (S (S (S (S (S (S (S O))))))))))
-  else (match resolve_weak U32 cps sq pc with
-        | Ok pc1 ->
-          if negb
-               (cls_list_eqb (at_ BN pc1 (live_idx oc sq))
-                 (sq_weak_spec oc pc sq))
-          then Inl (S (S (S (S (S (S (S (S (S (S (S (S O))))))))))))
-          else if negb (transparent oc pc1 sq)
-               then Inl (S (S (S (S (S (S (S (S (S (S (S (S (S O)))))))))))))
-               else (match resolve_neutral U32 ds cps sq lv oc pc1 with
-                     | Ok pc2 ->
-                       if negb
-                            (cls_list_eqb (at_ BN pc2 (live_idx oc sq))
-                              (sq_neutral_spec ds cps oc lv pc1 sq))
-                       then Inl (S (S (S (S (S (S (S (S (S (S (S (S (S (S (S
-                              O)))))))))))))))
-                       else stage_check_seqs ds cps oc lv pc2 rest
-                     | Panic _ ->
-                       Inl (S (S (S (S (S (S (S (S (S (S (S (S (S (S
-                         O)))))))))))))))
-        | Panic _ -> Inl (S (S (S (S (S (S (S (S (S (S (S O))))))))))))
+  else if negb (forallb not_removed_by_x9 (at_ BN pc (live_idx oc sq)))
+       then Inl (S (S (S (S (S (S (S (S (S (S (S (S (S (S (S (S
+              O))))))))))))))))
+       else (match resolve_weak U32 cps sq pc with
+             | Ok pc1 ->
+               if negb
+                    (cls_list_eqb (at_ BN pc1 (live_idx oc sq))
+                      (sq_weak_spec oc pc sq))
+               then Inl (S (S (S (S (S (S (S (S (S (S (S (S O))))))))))))
+               else if negb (transparent oc pc1 sq)
+                    then Inl (S (S (S (S (S (S (S (S (S (S (S (S (S
+                           O)))))))))))))
+                    else if negb
+                              (forallb (fun c ->
+                                (||) (is_ni c)
+                                  (match strong_dir c with
+                                   | Some _ -> true
+                                   | None -> false))
+                                (at_ BN pc1 (live_idx oc sq)))
+                         then Inl (S (S (S (S (S (S (S (S (S (S (S (S (S (S
+                                (S (S (S O)))))))))))))))))
+                         else (match resolve_neutral U32 ds cps sq lv oc pc1 with
+                               | Ok pc2 ->
+                                 if negb
+                                      (cls_list_eqb
+                                        (at_ BN pc2 (live_idx oc sq))
+                                        (sq_neutral_spec ds cps oc lv pc1 sq))
+                                 then Inl (S (S (S (S (S (S (S (S (S (S (S (S
+                                        (S (S (S O)))))))))))))))
+                                 else stage_check_seqs ds cps oc lv pc2 rest
+                               | Panic _ ->
+                                 Inl (S (S (S (S (S (S (S (S (S (S (S (S (S
+                                   (S O)))))))))))))))
+             | Panic _ -> Inl (S (S (S (S (S (S (S (S (S (S (S O))))))))))))
 
 (** val stage_check_para : datasource -> n list -> nat option -> nat **)
 
